@@ -4,29 +4,42 @@ SPEC = dict(
     harness=[dict(pkg="share/shwap/p2p/shrex", test="TestVerifC09", timeout=900, timeout_thorough=3000)],
     allowed_axioms=[],
     rule=("a case = one raw request byte string written to a stream of one of the five shrex protocols of the real Server (over a real "
-          "store holding squares of ODS width 1,2,4,8,16) with the observed outcome class (reset / reset after a refused reservation / "
-          "NOT_FOUND / INTERNAL / OK+payload) and the counted accessor opens/closes and reserved/released bytes; or one "
-          "ResponseSize(edsSize) evaluation. Requests: ODS width 1,2,4 exhaustive — every row index and every (row,col) from 0 to one "
-          "beyond the EDS width plus 255/256/32767/65535, every (from,to) pair from 0 to one beyond the square plus 2^16, 2^31, 2^32-1 "
-          "(width 4: 40% of the in-square pairs), every namespace class (present, absent inside / outside the row ranges, tx, pfb, "
-          "reserved padding, parity, tail padding, bad version, bad prefix, random); widths 8,16 sampled; per protocol zero height, "
-          "unknown heights, lengths 0 / 1 / size-1 / size+junk, a memory budget of 0 / a few hundred bytes; 400 random or bit-flipped "
-          "byte strings. Valid in-bounds requests additionally go through the real Client and the real container verification. "
-          "Non-trivial = every handler case that is not a valid request, or a valid one that was served; distinct = distinct Coq term."),
-    level_text=("Machine-checked theorems (Coq) over an executable model of the handler, for EVERY request byte string, store, memory budget "
-                "and inner accessor: a payload goes out only when the bytes decode to a valid identifier of a stored height that fits the "
-                "budget and lies inside the stored square (then it is the accessor's container, which the client accepts given that honest "
-                "containers verify — C01/C05); an unknown height yields NOT_FOUND; short, undecodable, invalid requests are reset; "
-                "out-of-bounds ones get an error status; on every path accessors opened = closed (at most one) and bytes reserved = "
-                "released; the reservation computed from attacker-chosen fields is within [0, 2^41]; the requests a client builds meet "
-                "the hypotheses of serve_complete. The model is replayed against the real Server on ~3400 requests per run inside Coq. "
+          "store holding squares of ODS width 1,2,4,8,16), possibly with a fault injected behind the server (GetByHeight fails / Size() "
+          "fails / the accessor call of the ResponseReader fails / it panics), with the observed outcome class (reset / reset after a "
+          "refused reservation / NOT_FOUND / INTERNAL / OK+payload) and the counted accessor opens/closes and reserved/released bytes; "
+          "or one ResponseSize(edsSize) evaluation. Requests: ODS width 1,2,4 exhaustive - every row index and every (row,col) from 0 to "
+          "one beyond the EDS width plus 255/256/32767/65535, every (from,to) pair from 0 to one beyond the square plus 2^16, 2^31, "
+          "2^32-1 (width 4: 40% of the in-square pairs), every namespace class (present, absent inside / outside the row ranges, tx, "
+          "pfb, reserved padding, parity, tail padding, bad version, bad prefix, random); widths 8,16 sampled plus the edges of the "
+          "square and of its first/last namespace run; per protocol and square zero height, unknown heights, lengths 0 / 1 / size-1 / "
+          "size+junk, a memory budget of 0 / a few hundred bytes, the four faults, a client that resets mid-request (oracle only); 1200 "
+          "random or bit-flipped byte strings. Requests that are valid, in bounds and answerable additionally go through the real Client "
+          "and the real container verification against the block's roots and the stored shares; the real Client must report ErrNotFound "
+          "for an unknown height. Non-trivial = every handler case that is not a plain valid request, or a valid one that was served; "
+          "distinct = distinct Coq term."),
+    level_text=("Machine-checked theorems (Coq) over an executable model of the handler inside its recovery middleware, for EVERY request "
+                "byte string, store, memory budget and inner accessor behaviour (container / error / panic): a payload goes out only when "
+                "the bytes decode to a valid identifier of a stored height that fits the budget and lies inside the stored square, and it "
+                "is the accessor's container for exactly that identifier (served_only_wellformed, serve_complete); the identifier a "
+                "client's constructor accepts for the stored square, encoded as the client does, meets these hypotheses and the client "
+                "returns the container when its verification accepts it (serve_client; that honest containers verify is C01/C05 and is "
+                "checked on the real containers for every served reply by the harness); an unknown height yields NOT_FOUND; short, "
+                "undecodable (zero height, bad namespace, from>=to) requests are reset; out-of-bounds ones get INTERNAL or, when the "
+                "declared size exceeds the budget, a reset - never data; a panicking accessor is recovered into a reset; on every path "
+                "accessors opened = closed (at most one) and bytes reserved = released, proved from the defer structure "
+                "(deferred_balanced) from any starting state; the reservation computed from attacker-chosen fields is within [0, 2^41) "
+                "for every byte string and within the size of the stored square for a request that passes the bounds check. The model "
+                "is replayed against the real Server on ~4300 requests per run inside Coq. "
                 "Partial: libp2p's resource manager is replaced by a counting scope with a fixed budget; mocknet streams have no "
-                "deadlines, so a client that stalls mid-request is not exercised; panics and hangs are the oracle's (L3) verdict."),
+                "deadlines, so a client that stalls mid-request (as opposed to one that resets) is not exercised; panics and hangs are "
+                "the oracle's (L3) verdict; a share range is 'well formed' only inside one namespace (RangeNamespaceData is the data of "
+                "one namespace: the accessor refuses a range spanning two, the server answers INTERNAL - in the model this is build = BErr)."),
     trusted_base=[
-        "model Shwap/Server.v hand-written after shrex/server.go (streamHandler, handleDataRequest, respondStatus), the ResponseSize / ReadFrom / Validate of share/shwap/*_id.go and the bounds checks of share/eds/validation.go; identifier decoding is Shwap/Ids.v (C18); tied by harness/share/shwap/p2p/shrex/zz_verif_c09_test.go whose observations are re-computed inside Coq on every run",
-        "int(math.Log2(float64(edsSize))) is modelled as Z.log2 (floor); compared on all widths 1..2048 used by the harness; edsSize 0 is excluded (a stored square has width >= 2)",
-        "the inner accessor (what the stored square answers) and the container verification are abstract; the harness verifies every served payload with the real containers against the real roots and the stored data",
-        "mocked: libp2p network (mocknet), the stream's resource scope (a counting scope with a fixed byte budget standing in for rcmgr), the per-IP rate limiter (disabled for the run: thousands of requests come from one address); rate limiting and SetService refusals are not modelled",
+        "model Shwap/Server.v hand-written after shrex/server.go (streamHandler, handleDataRequest, respondStatus), recovery.go, the ResponseSize / ReadFrom / Validate of share/shwap/*_id.go and the bounds checks of share/eds/validation.go; identifier decoding is Shwap/Ids.v (C18); tied by harness/share/shwap/p2p/shrex/zz_verif_c09_test.go whose observations are re-computed inside Coq on every run",
+        "Go's defer is modelled as 'run the release after the body whatever it returns' (Server.deferred); a panic unwinds through both deferred calls and is turned into a reset by the recovery middleware - tied by the injected-panic cases (the counters are observed after the real deferred calls ran)",
+        "int(math.Log2(float64(edsSize))) is modelled as Z.log2 (floor); compared on widths 1..2048; edsSize 0 is excluded (a stored square has EDS width >= 2)",
+        "the inner accessor (what the stored square answers) and the container verification are abstract in the theorems; the harness decides 'answerable' from the stored shares alone (everything in bounds, except a range spanning two namespaces) and verifies every served payload with the real containers against the real roots and the stored data",
+        "mocked: libp2p network (mocknet), the stream's resource scope (a counting scope with a fixed byte budget standing in for rcmgr), the per-IP rate limiter (disabled for the run: thousands of requests come from one address); rate limiting and SetService refusals are not modelled; faults are injected by wrapping the store and the accessor it returns (outside the validating wrapper)",
         "Go int as unbounded Z: fields are at most 32 bits wide on the wire, reservations stay below 2^41 (theorem)",
     ],
 )
